@@ -108,6 +108,17 @@ Theorem C02_identity_filter_tool_stream :
 Proof. exact identity_filter_tool_stream. Qed.
 Print Assumptions C02_identity_filter_tool_stream.
 
+(* "not starting with a compression magic number" in all statements above is [detect_magic src = false], and
+   [detect_magic] tests the byte strings REGENERATED from util/compress.cc (DetectMagic).  They are the formats'
+   signatures -- gzip 1f 8b (RFC 1952), bzip2 "BZh", xz fd "7zXZ" 00 -- each tested as a whole: a source change that
+   shortens or alters one of them (and so treats more plain texts as compressed) breaks this statement. *)
+Theorem C02_magic_numbers_are_the_format_signatures :
+  rc_magic_gz = [31; 139]%Z /\ rc_magic_bz = [66; 90; 104]%Z /\ rc_magic_xz = [253; 55; 122; 88; 90; 0]%Z /\
+  rc_magic_size = 6 /\
+  (forall src, detect_magic src = is_prefix [31; 139]%Z src || is_prefix [66; 90; 104]%Z src || is_prefix [253; 55; 122; 88; 90; 0]%Z src).
+Proof. repeat split. Qed.
+Print Assumptions C02_magic_numbers_are_the_format_signatures.
+
 (* non-vacuity: concrete data meeting the hypotheses, window of 2 bytes that has to double
    and to compact, short reads and an EINTR, CR before the delimiter, empty record,
    unterminated last record *)
